@@ -112,3 +112,161 @@ Proof.
   rewrite forallb_forall in Hw. destruct (cab_w_net e nt (Hw e He) Hin) as (H1 & H2 & H3).
   repeat split; auto.
 Qed.
+
+(* ---------------------------------------------------------------------------------------- *)
+(* the position of a cell in the file: libs = prev ++ Lc :: after, li_cells Lc = done ++ rest *)
+Definition cell_ok (C : nvcell) : Prop := ident_w (ce_ident C) = true /\ forallb port_w (ce_ports C) = true.
+
+Record env (libs prev : list nvlib) (lib : str) (done : list nvcell) : Prop := {
+  ev_split : exists Lc after rest, libs = prev ++ Lc :: after /\ li_ident Lc = lib /\ li_cells Lc = done ++ rest;
+  ev_uniq : uniq_ci (map li_ident libs) = true;
+  ev_lib : ident_w lib = true;
+  ev_prev_ids : forall L, In L prev -> ident_w (li_ident L) = true;
+  ev_prev_cells : forall L C, In L prev -> In C (li_cells L) -> cell_ok C;
+  ev_done : forall C, In C done -> cell_ok C }.
+
+Lemma find_app {X} (f : X -> bool) a b : find f (a ++ b) = match find f a with Some x => Some x | None => find f b end.
+Proof. induction a as [|x a IH]; [reflexivity|]. cbn. destruct (f x); auto. Qed.
+
+Lemma find_map {X Y} (f : Y -> bool) (g : X -> Y) l : find f (map g l) = option_map g (find (fun x => f (g x)) l).
+Proof. induction l as [|x l IH]; [reflexivity|]. cbn. destruct (f (g x)); auto. Qed.
+
+Lemma find_lib_norm l prev : find_lib l (map norm_lib prev) = option_map norm_lib (find_lib l prev).
+Proof. unfold find_lib. apply find_map. Qed.
+Lemma find_cell_norm c cs : find_cell c (map norm_cell cs) = option_map norm_cell (find_cell c cs).
+Proof. unfold find_cell. apply find_map. Qed.
+
+Lemma ident_eqb_refl a : ident_eqb a a = true.
+Proof. unfold ident_eqb. apply str_eqb_refl. Qed.
+
+Lemma find_none_existsb {X} (f : X -> bool) l : existsb f l = false -> find f l = None.
+Proof. induction l as [|x l IH]; [reflexivity|]. cbn. destruct (f x); [discriminate|auto]. Qed.
+
+Definition rpf (prev : list nvlib) (lib : str) (done : list nvcell) (i : nvinst) : list nvport :=
+  match ref_cell prev lib done (in_ref i) with Some C => ce_ports C | None => [] end.
+
+Lemma find_lib_none lib prev : existsb (ident_eqb lib) (map li_ident prev) = false -> find_lib lib prev = None.
+Proof.
+  unfold find_lib. induction prev as [|L prev IH]; [reflexivity|]. cbn [map existsb find]. intros H.
+  apply orb_false_iff in H as [H1 H2]. rewrite ident_eqb_sym, H1. auto.
+Qed.
+
+Lemma ref_cell_facts libs prev lib done l cn C cell view ports :
+  env libs prev lib done -> ref_cell prev lib done (Some (l, cn)) = Some C ->
+  (exists cs, resolve_lib (mkctx (map norm_lib prev) lib (map norm_cell done) cell view ports) (Some l) = Ok (l, cs) /\
+              find_cell cn cs = Some (norm_cell C)) /\
+  (exists L, find_lib l libs = Some L /\ find_cell cn (li_cells L) = Some C) /\
+  ce_ident C = cn /\ ident_w l = true /\ cell_ok C.
+Proof.
+  intros E H. destruct E as [(Lc & after & rest & Hlibs & Hlc & Hcells) Hu Hlib Hpi Hpc Hd].
+  unfold ref_cell in H. destruct (ident_eqb lib l) eqn:El.
+  - destruct (str_eqb lib l) eqn:Es; [|discriminate]. apply str_eqb_spec in Es. subst l.
+    destruct (find_cell cn done) as [C'|] eqn:Ef; [|discriminate].
+    destruct (str_eqb (ce_ident C') cn) eqn:Ec; [|discriminate]. inversion H. subst C'.
+    apply str_eqb_spec in Ec.
+    assert (HinC : In C done) by (unfold find_cell in Ef; apply find_some in Ef; tauto).
+    split; [|split; [|split; [|split]]]; auto.
+    + exists (map norm_cell done). unfold resolve_lib. cbn [cx_lib cx_cells]. rewrite El. split; auto.
+      now rewrite find_cell_norm, Ef.
+    + exists Lc. split.
+      * rewrite Hlibs. unfold find_lib. rewrite find_app.
+        rewrite Hlibs, map_app in Hu. cbn [map] in Hu. apply uniq_ci_mid in Hu. rewrite Hlc in Hu.
+        fold (find_lib lib prev). rewrite (find_lib_none _ _ Hu). cbn [find]. now rewrite Hlc, ident_eqb_refl.
+      * rewrite Hcells. unfold find_cell. rewrite find_app. fold (find_cell cn done). now rewrite Ef.
+  - destruct (find_lib l prev) as [L|] eqn:Efl; [|discriminate].
+    destruct (str_eqb (li_ident L) l) eqn:Es; [|discriminate]. apply str_eqb_spec in Es.
+    destruct (find_cell cn (li_cells L)) as [C'|] eqn:Ef; [|discriminate].
+    destruct (str_eqb (ce_ident C') cn) eqn:Ec; [|discriminate]. inversion H. subst C'.
+    apply str_eqb_spec in Ec.
+    assert (HinL : In L prev) by (unfold find_lib in Efl; apply find_some in Efl; tauto).
+    assert (HinC : In C (li_cells L)) by (unfold find_cell in Ef; apply find_some in Ef; tauto).
+    split; [|split; [|split; [|split]]]; auto.
+    + exists (map norm_cell (li_cells L)). unfold resolve_lib. cbn [cx_lib cx_libs cx_cells]. rewrite El.
+      rewrite find_lib_norm, Efl. cbn [option_map norm_lib li_ident li_cells]. rewrite Es. split; auto.
+      now rewrite find_cell_norm, Ef.
+    + exists L. split; auto. rewrite Hlibs. unfold find_lib. rewrite find_app. fold (find_lib l prev). now rewrite Efl.
+    + rewrite <- Es. auto.
+    + eauto.
+Qed.
+
+Lemma inst_w_good libs prev lib done cell view ports i :
+  env libs prev lib done -> inst_w prev lib done i = true ->
+  inst_good (mkctx (map norm_lib prev) lib (map norm_cell done) cell view ports) (rpf prev lib done) i.
+Proof.
+  intros E H. unfold inst_w in H. apply andb_true_iff in H as [H Hr]. apply andb_true_iff in H as [Hel Hps].
+  destruct (in_ref i) as [[l cn]|] eqn:Er; [|discriminate].
+  destruct (ref_cell prev lib done (Some (l, cn))) as [C|] eqn:Erc; [|discriminate].
+  destruct (ref_cell_facts libs prev lib done l cn C cell view ports E Erc)
+    as ((cs & Hres & Hfc) & _ & Hcid & Hl & Hok & _).
+  exists l, cn, cs, (norm_cell C). repeat split; auto.
+  - rewrite <- Hcid. exact Hok.
+  - unfold rpf. rewrite Er, Erc. reflexivity.
+Qed.
+
+Lemma port_pin_good ports pt k : forallb port_w ports = true -> port_pin_w ports pt k = true -> port_good ports pt k.
+Proof.
+  intros Hw H. unfold port_pin_w in H. destruct (find_port pt ports) as [po|] eqn:Ef; [|discriminate].
+  apply andb_true_iff in H as [Hid Hk]. apply str_eqb_spec in Hid. apply N.ltb_lt in Hk.
+  assert (Hin : In po ports) by (unfold find_port in Ef; apply find_some in Ef; tauto).
+  rewrite forallb_forall in Hw. specialize (Hw po Hin). unfold port_w in Hw.
+  apply andb_true_iff in Hw as [Hw Harr]. apply andb_true_iff in Hw as [Hw _].
+  apply andb_true_iff in Hw as [Hw _]. apply andb_true_iff in Hw as [Hw _].
+  unfold elem_w in Hw. apply andb_true_iff in Hw as [Hi _].
+  exists po. repeat split; auto.
+  - now rewrite <- Hid.
+  - intros Ea. rewrite Ea in Harr. cbn [orb] in Harr. now apply N.eqb_eq in Harr.
+Qed.
+
+Lemma pin_w_good libs prev lib done c p :
+  env libs prev lib done -> forallb port_w (ce_ports c) = true ->
+  forallb (inst_w prev lib done) (ce_insts c) = true ->
+  pin_w prev lib done c p = true -> pin_good libs c (rpf prev lib done) p.
+Proof.
+  intros E Hpw Hiw H. destruct p as [pt k|i pt k]; cbn [pin_w pin_good] in *.
+  - now apply port_pin_good.
+  - destruct (find_inst_v i (ce_insts c)) as [x|] eqn:Ef; [|discriminate].
+    apply andb_true_iff in H as [Hid H]. apply str_eqb_spec in Hid.
+    destruct (ref_cell prev lib done (in_ref x)) as [C|] eqn:Erc; [|discriminate].
+    assert (Hin : In x (ce_insts c)) by (unfold find_inst_v in Ef; apply find_some in Ef; tauto).
+    rewrite forallb_forall in Hiw. specialize (Hiw x Hin). unfold inst_w in Hiw.
+    apply andb_true_iff in Hiw as [Hiw _]. apply andb_true_iff in Hiw as [Hel _].
+    unfold elem_w in Hel. apply andb_true_iff in Hel as [Hix _].
+    destruct (in_ref x) as [[l cn]|] eqn:Er; [|discriminate].
+    destruct (ref_cell_facts libs prev lib done l cn C [] [] [] E Erc)
+      as (_ & (L & HfL & HfC) & Hcid & Hl & Hok & Hpo).
+    exists x. repeat split; auto.
+    + now rewrite <- Hid.
+    + unfold wports, rpf. now rewrite Er, HfL, HfC, Erc.
+    + unfold rpf. rewrite Er, Erc. now apply port_pin_good.
+Qed.
+
+Lemma uniq_pd_NoDup l : uniq_pd l = true -> NoDup l.
+Proof.
+  induction l as [|a l IH]; intros H; [constructor|]. cbn in H. apply andb_true_iff in H as [Ha Hl].
+  constructor; auto. intros Hin. apply negb_true_iff in Ha.
+  assert (existsb (pd_eqb a) l = true); [|congruence].
+  apply existsb_exists. exists a. split; auto. now apply pd_eqb_spec.
+Qed.
+
+(* ONE CELL from the boolean class: cell number [length done] of library [lib] of a file
+   libs = prev ++ Lc :: after, read in the state the reader has reached there *)
+Theorem cell_w_roundtrip libs prev lib done c x :
+  env libs prev lib done -> cell_w prev lib done c = true ->
+  ident_taken (ce_ident c) (map ce_ident done) = false -> name_taken (ce_name c) (map ce_name done) = false ->
+  cell_sexp [] libs lib c = EmOk x ->
+  exists args, x = SList (KW "Cell" :: args) /\
+    parse_cell (map norm_lib prev) lib (map norm_cell done) args = Ok (norm_cell c).
+Proof.
+  intros E Hw Hti Htn Hx. unfold cell_w in Hw.
+  repeat match type of Hw with _ && _ = true => let H := fresh "Hc" in apply andb_true_iff in Hw as [Hw H] end.
+  (* Hc: uniq_pd, Hc0: pins pin_w, Hc1: uniq_x cab names, Hc2: uniq_ci cab ids, Hc3: cab_w, Hc4: uniq_x inst names,
+     Hc5: uniq_ci inst ids, Hc6: inst_w, Hc7: uniq_x port names, Hc8: uniq_ci port ids, Hc9: port_w, Hw: elem_w *)
+  apply (cell_roundtrip (map norm_lib prev) libs lib (map norm_cell done) c x (rpf prev lib done)); auto.
+  - apply Forall_forall. intros i Hi. rewrite forallb_forall in Hc6. eapply inst_w_good; eauto.
+  - now apply cabs_wf.
+  - apply cabs_nets_good; auto. intros p Hp. rewrite forallb_forall in Hc0.
+    eapply pin_w_good; eauto.
+  - apply uniq_pd_NoDup. exact Hc.
+  - now rewrite map_map.
+  - now rewrite map_map.
+Qed.
